@@ -55,7 +55,13 @@ def make_adapter(specs, log):
 
         def mk(i=i, sp=sp, is_text=is_text):
             enc = (lambda x: None if x is None else f"r{x}".encode())   # TCP replies are bytes
-            if sp["stream"]:
+            if sp["stream"] == "asyncgen":
+                # the command itself is an async generator function, as RemoteControlledAdapter.yield_observed of the examples
+                async def method(self, *args):
+                    log.append(("handler", i, [int(a) for a in args]))
+                    for r in sp["replies"]:
+                        yield enc(r)
+            elif sp["stream"]:
                 async def method(self, *args):
                     log.append(("handler", i, [int(a) for a in args]))
 
@@ -83,6 +89,10 @@ def gen_specs(rng):
         sp["name"] = "cmd_" + "abcdefgh"[k]          # getmembers() order = alphabetical = list order
         sp["interrupt"] = rng.random() < 0.5
         sp["stream"] = rng.random() < 0.4
+        if sp["stream"] and not sp["interrupt"] and rng.random() < 0.5:
+            # written as an async generator function (its body, hence its effect, only runs when the replies are
+            # iterated: tickit's own example uses this form for a non-interrupting command only, and so do we)
+            sp["stream"] = "asyncgen"
         if sp["stream"]:
             sp["replies"] = [rng.choice([None, 10 * k + j]) for j in range(rng.randint(0, 3))]
         else:
@@ -190,6 +200,198 @@ def render(specs, on_connect, chunks, log, raised):
     return T(cmds, L(O(r, Zr) for r in on_connect), msgs, r_events(log), B(bool(raised)))
 
 
+# ---- the shipped example adapters
+EXAMPLE_MESSAGES = {
+    "RemoteControlledAdapter": [b"\x01", b"O", b"\x01abcd", b"O=3.5", b"O=7", b"\x02", b"U", b"\x02wxyz", b"U=2.25", "\U0001F95A".encode(),
+                                b"H=4", b"H", b"O?1", b"O?3", b"O?", b"O=", b"U=x", b"\x01ab", b"\x03", b"O \r\n", b" U=9 ", b"\xff", b"o"],
+    "ShutterAdapter": [b"P?", b"T?", b"T=0.5", b"T=1", b"T=", b"P", b"T?x", b"\xfe", b" P? "],
+    "AmplifierAdapter": [b"A?", b"A=3", b"A=2.5", b"A=", b"A", b"a?", b"\x80", b"A?\r\n"],
+    "IsolatedBoxTCPAdapter": [b"v?", b"v=5", b"v=1.5", b"v=", b"v", b"V?", b"\xc3", b"v?\n"],
+}
+
+
+def example_adapters():
+    import sys
+    from common import REPO
+    if str(REPO) not in sys.path:
+        sys.path.insert(0, str(REPO))
+    from tickit.utils.byte_format import ByteFormat
+    import examples.devices.amplifier as amp
+    import examples.devices.isolated_device as iso
+    import examples.devices.remote_controlled as rc
+    import examples.devices.shutter as sh
+    return {
+        "RemoteControlledAdapter": lambda: rc.RemoteControlledAdapter(rc.RemoteControlledDevice(), ByteFormat(b"%b\r\n")),
+        "ShutterAdapter": lambda: sh.ShutterAdapter(sh.ShutterDevice(default_position=0.2, initial_position=0.2)),
+        "AmplifierAdapter": lambda: amp.AmplifierAdapter(amp.AmplifierDevice()),
+        "IsolatedBoxTCPAdapter": lambda: iso.IsolatedBoxTCPAdapter(iso.IsolatedBoxDevice()),
+    }
+
+
+def example_commands(adapter):
+    """[(method name, regex, format, interrupt)] in the order tickit tries them (getmembers = by name)"""
+    out = []
+    for name in sorted(dir(adapter)):
+        cmd = getattr(getattr(type(adapter), name, None), "__command__", None)
+        if cmd is not None:
+            rx = cmd.pattern.pattern          # (the decoding is not kept by RegexCommand: every text command of the examples declares utf-8)
+            out.append((name, rx, "utf-8" if isinstance(rx, str) else None, cmd.interrupt))
+    return out
+
+
+def run_example(name, make, chunks):
+    """drives one connection of a shipped example adapter through the real TCP handler (instrumented instance) and, by
+    hand, a second instance with the same messages: returns (specs, per-chunk reference, observed log, raised)"""
+    import inspect
+    from typing import get_type_hints
+    import slevel
+    from tickit.adapters.io.tcp_io import TcpIo
+
+    log = []
+    driven, ref = make(), make()
+    cmds = example_commands(driven)
+    ns = {}
+    for idx, (mname, _, _, _) in enumerate(cmds):
+        fn = getattr(type(driven), mname)
+
+        def mk(fn=fn, idx=idx, mname=mname):
+            if inspect.isasyncgenfunction(fn):
+                async def w(self, *a):
+                    log.append(("handler", idx, [repr(x) for x in a]))
+                    async for x in fn(self, *a):
+                        yield x
+            else:
+                async def w(self, *a):
+                    log.append(("handler", idx, [repr(x) for x in a]))
+                    return await fn(self, *a)
+            w.__command__, w.__name__ = fn.__command__, mname
+            w.__annotations__ = dict(get_type_hints(fn))
+            return w
+        ns[mname] = mk()
+    driven.__class__ = type("Instrumented" + name, (type(driven),), ns)
+    fmt = driven.byte_format.format
+
+    async def silent():
+        if False:
+            yield None
+    driven.on_connect = silent       # the examples' on_connect streams never end; they are not the subject here
+    reference = []
+
+    async def by_hand(msg):
+        """the first command (by name) whose decoding + full match accepts the message, called directly on the reference instance"""
+        for idx, (mname, regex, cfmt, interrupt) in enumerate(cmds):
+            sp = dict(regex=regex, fmt=cfmt)
+            if isinstance(regex, str):
+                try:
+                    m = msg.decode(cfmt).strip()
+                except UnicodeDecodeError:
+                    continue
+            else:
+                m = msg
+            mo = re.fullmatch(regex, m)
+            if not mo:
+                continue
+            meth = getattr(ref, mname)
+            hints = [h for k, h in get_type_hints(meth).items() if k != "return"]
+            args = [h(g) for g, h in zip(mo.groups(), hints)]
+            res = meth(*args)
+            replies = []
+            if inspect.isasyncgen(res):
+                async for x in res:
+                    replies.append(x)
+            else:
+                res = await res
+                if hasattr(res, "__aiter__"):
+                    async for x in res:
+                        replies.append(x)
+                else:
+                    replies.append(res)
+            return dict(idx=idx, args=[repr(a) for a in args], interrupt=interrupt, replies=[r for r in replies if r is not None])
+        return None
+
+    raised = False
+
+    async def main(loop):
+        nonlocal raised
+
+        async def raise_interrupt():
+            log.append(("interrupt",))
+        for c in chunks:
+            reference.append(await by_hand(c))
+        handle = TcpIo("h", 1)._generate_handle_function(driven.on_connect, driven.handle_message, raise_interrupt, driven.byte_format)
+        try:
+            await handle(FakeReader(chunks), FakeWriter(log))
+        except Exception as e:  # noqa
+            raised = type(e).__name__ + ": " + str(e)[:120]
+    slevel.vrun(main)
+    return cmds, reference, log, raised, fmt
+
+
+def examples_part(ck, tier, rng):
+    """C18 on the shipped example adapters: per connection, the model's command table has one copy of the adapter's
+    commands per chunk (replies depend on the device state reached), reply bytes and arguments are coded as integers"""
+    cases, terms = [], []
+    for name, make in example_adapters().items():
+        msgs = EXAMPLE_MESSAGES[name]
+        # a streamed reply that sleeps between its items (O?3) runs concurrently with the replies to later messages of the
+        # connection; the model orders events per message, so such a message is only sent on a connection of its own
+        calm = [m for m in msgs if m != b"O?3"]
+        conns = [[m] for m in msgs] + [[rng.choice(calm) for _ in range(rng.randint(2, 5))] for _ in range({"quick": 6, "thorough": 60}[tier])]
+        for chunks in conns:
+            cmds, reference, log, raised, fmt = run_example(name, make, chunks)
+            n = len(cmds)
+            codes = {}
+
+            def code(x):
+                return codes.setdefault(x, len(codes) + 1)
+            table, parses = [], []
+            for j, refj in enumerate(reference):
+                row = []
+                for i in range(n):
+                    if refj is not None and refj["idx"] == i:
+                        table.append("{| cmd_interrupt := %s; cmd_replies := %s |}" % (B(refj["interrupt"]), L(O(code(fmt % r), Zr) for r in refj["replies"])))
+                    else:
+                        table.append("{| cmd_interrupt := false; cmd_replies := [] |}")
+                for j2 in range(len(reference)):
+                    for i in range(n):
+                        hit = (j2 == j and refj is not None and refj["idx"] == i)
+                        row.append("(Match %s)" % L(Zr(code("arg:" + a)) for a in refj["args"]) if hit else "NoMatch")
+                parses.append(L(row))
+            # observed events in the same coding; the handler index of chunk j is j*n + i
+            out, j = [], -1
+            writes_left = []
+            for e in log:
+                if e[0] == "handler":
+                    j = next((k for k in range(j + 1, len(reference)) if reference[k] is not None), j)
+                    out.append(f"EvHandler {Nr(j * n + e[1])} {L(Zr(code('arg:' + a)) for a in e[2])}")
+                elif e[0] == "interrupt":
+                    out.append("EvInterrupt")
+                else:
+                    data = e[1]
+                    if data == fmt % b"Request does not match any known command":
+                        out.append("EvWriteUnknown")
+                    else:
+                        out.append(f"EvWrite {Zr(code(data))}")
+            cases.append(dict(adapter=name, chunks=chunks, log=log, raised=raised, reference=reference))
+            terms.append(T(L(table), "[]", L(parses), L(out), B(bool(raised))))
+    bad = run_shards(PID + "_examples", HEADER, "cmd_case", "check_cmd", terms, shard_size=100)
+    ck.coverage.update(example_adapter_connections=len(cases), example_adapter_disagreements=len(bad))
+    for c in cases:
+        ck.count("example:" + c["adapter"] + ":" + ",".join(m.hex() for m in c["chunks"]), any(r is not None for r in c["reference"]))
+    done = set()
+    for i in sorted(bad):
+        for codev in bad[i]:
+            if codev in done:
+                continue
+            done.add(codev)
+            c = cases[i]
+            ck.report(REASONS[codev] + "-shipped-example-adapter",
+                      f"{c['adapter']} (examples/devices): {REASONS[codev]} on chunks {[m.hex() for m in c['chunks']]}" +
+                      (f" -- {c['raised']}" if c["raised"] else ""),
+                      dict(kind="example", adapter=c["adapter"], chunks=[m.hex() for m in c["chunks"]], raised=c["raised"],
+                           events=[list(map(str, e)) for e in c["log"]], reference=c["reference"], codes=bad[i]))
+
+
 def http_part(ck):
     """_with_posthoc_task: the endpoint's effect, then the interrupt iff the endpoint is interrupting"""
     from tickit.adapters.http import HttpAdapter
@@ -268,6 +470,7 @@ def main(tier, seed):
         ck.count(json.dumps([[str(sp["regex"]), sp["fmt"], sp["interrupt"], sp["replies"]] for sp in c["specs"]] + [m.hex() for m in c["chunks"]]),
                  "Match" in ps or "DecodeFails" in ps)
     http_part(ck)
+    examples_part(ck, tier, rng)
     ck.rule = ("generated command sets (1-5 commands from a pool of text/bytes patterns with utf-8 / ascii / latin-1 decoding, "
                "interrupting or not, single or streamed replies with empty markers) driven through the real TCP handler: every byte "
                "string of length <= 1 and a grid of length-2 strings per set, pattern-derived messages (exact, truncated, over-long, "
@@ -294,6 +497,15 @@ def main(tier, seed):
 
 
 def replay(rp):
+    if rp.get("kind") == "example":
+        chunks = [bytes.fromhex(h) for h in rp["chunks"]]
+        cmds, reference, log, raised, fmt = run_example(rp["adapter"], example_adapters()[rp["adapter"]], chunks)
+        print("adapter:", rp["adapter"], "chunks:", chunks)
+        print("by hand:", reference)
+        print("through the TCP handler:", log, "raised:", raised)
+        want = [fmt % r for ref in reference for r in (ref["replies"] if ref else [b"Request does not match any known command"])]
+        got = [e[1] for e in log if e[0] == "write"]
+        return 1 if raised or want != got else 0
     if rp.get("kind") != "tcp":
         print(rp)
         return 1
